@@ -56,6 +56,96 @@ def analyse(t, consts, amounts):
     raise Unsupported("construct outside {*, /, scale constants, amount}: " + T.show(t)[:80])
 
 
+class Poly:
+    """sum of monomials coef * prod(amount_k ^ e_k): {exponents: (act, true)}
+    plus the absolute error accumulated by roundings of amount-carrying
+    intermediates (None once a product / quotient of two amounts is involved:
+    then only the coefficients are compared)."""
+
+    def __init__(self, monos, err):
+        self.monos = monos
+        self.err = err
+
+    def is_const(self):
+        return all(not any(e) for e in self.monos)
+
+    def const(self):
+        return self.monos.get(next(iter(self.monos)))
+
+
+def analyse_poly(t, consts, amounts):
+    """General form of `analyse` for sums / products / quotients of several
+    amounts (amounts: ordered list of canon terms)."""
+    n = len(amounts)
+    zero = (0,) * n
+    t = T.canon(t)
+    if t in consts:
+        return Poly({zero: (consts[t], consts[t])}, Fraction(0))
+    if t in amounts:
+        e = tuple(1 if i == amounts.index(t) else 0 for i in range(n))
+        return Poly({e: (Fraction(1), Fraction(1))}, Fraction(0))
+    h = t[0]
+    if h == "num":
+        return Poly({zero: (Fraction(t[1]), Fraction(t[1]))}, Fraction(0))
+    if h == "neg":
+        x = analyse_poly(t[1], consts, amounts)
+        return Poly({e: (-a, -b) for e, (a, b) in x.monos.items()}, x.err)
+    if h in ("+", "-"):
+        a = analyse_poly(t[1], consts, amounts)
+        b = analyse_poly(t[2], consts, amounts)
+        sg = 1 if h == "+" else -1
+        m = dict(a.monos)
+        for e, (x, y) in b.monos.items():
+            x0, y0 = m.get(e, (Fraction(0), Fraction(0)))
+            m[e] = (x0 + sg * x, y0 + sg * y)
+        err = None if a.err is None or b.err is None else a.err + b.err
+        return Poly(m, err)  # decimal addition is exact within 18 fractional digits
+    if h in ("*", "/"):
+        a = analyse_poly(t[1], consts, amounts)
+        b = analyse_poly(t[2], consts, amounts)
+        if a.is_const() and b.is_const() and len(a.monos) == 1 and len(b.monos) == 1:
+            (x, y), (u, v) = a.const(), b.const()
+            if h == "/" and (u == 0 or v == 0):
+                raise Unsupported("division by a zero constant")
+            act = x * u if h == "*" else x / u
+            tru = y * v if h == "*" else y / v
+            return Poly({zero: (round18(act), tru)}, Fraction(0))
+        if h == "*" and a.is_const() and not b.is_const():
+            a, b = b, a
+        if b.is_const() and len(b.monos) == 1:
+            (u, v) = b.const()
+            if u == 0 or v == 0:
+                raise Unsupported("zero coefficient")
+            if h == "*":
+                m = {e: (x * u, y * v) for e, (x, y) in a.monos.items()}
+                err = None if a.err is None else a.err * abs(u) + HALF
+            else:
+                m = {e: (x / u, y / v) for e, (x, y) in a.monos.items()}
+                err = None if a.err is None else a.err / abs(u) + HALF
+            return Poly(m, err)
+        if len(a.monos) == 1 and len(b.monos) == 1:
+            (ea, (x, y)), (eb, (u, v)) = next(iter(a.monos.items())), next(iter(b.monos.items()))
+            if h == "*":
+                return Poly({tuple(i + j for i, j in zip(ea, eb)): (x * u, y * v)}, None)
+            if u == 0 or v == 0:
+                raise Unsupported("zero coefficient")
+            return Poly({tuple(i - j for i, j in zip(ea, eb)): (x / u, y / v)}, None)
+        raise Unsupported("product / quotient of sums: " + T.show(t)[:80])
+    raise Unsupported("construct outside {+, -, *, /, scale constants, amounts}: " + T.show(t)[:80])
+
+
+def worst(poly):
+    """(max relative coefficient error, absolute rounding or None)"""
+    rel = Fraction(0)
+    for e, (act, tru) in poly.monos.items():
+        if tru == 0:
+            if act != 0:
+                return (Fraction(1), poly.err)
+            continue
+        rel = max(rel, abs(act - tru) / abs(tru))
+    return rel, poly.err
+
+
 COEF_TOL = Fraction(1, 10 ** 18)
 ABS_TOL = Fraction(1, 10 ** 18)
 
